@@ -130,7 +130,7 @@ static std::unordered_set<uint64_t> g_states;
 
 static char* g_cur = nullptr;   // shared slot: the history this worker is executing (attributes a crash)
 static void dfs(std::vector<Op>& hist, int depth, Stats& st) {
-    if (g_cur) { std::string h = hist_json(hist); strncpy(g_cur, h.c_str(), 255); }
+    if (g_cur) { std::string h = hist_json(hist); strncpy(g_cur, h.c_str(), 1023); }
     Outcome o = execute(hist, true);
     st.histories++; st.ops += hist.size();
     if (o.any_waited && o.any_cancel) st.nontrivial++;
@@ -161,7 +161,7 @@ int main(int argc, char** argv) {
     { std::vector<Op> h; Outcome o0 = execute(h, false);
       for (auto& a : o0.enabled) { h = {a}; Outcome o1 = execute(h, false); if (o1.enabled.empty() || depth < 2) { prefixes.push_back(h); continue; }
         for (auto& b : o1.enabled) { prefixes.push_back({a, b}); } } }
-    struct Sh { volatile uint64_t histories, ops, nontrivial, states; volatile int next; char cur[64][256]; };
+    struct Sh { volatile uint64_t histories, ops, nontrivial, states; volatile int next; char cur[64][1024]; };
     Sh* sh = (Sh*)mmap(nullptr, sizeof(Sh), PROT_READ | PROT_WRITE, MAP_SHARED | MAP_ANONYMOUS, -1, 0);
     std::string tmpl = std::string(out ? out : "/dev/null") + ".w";
     std::vector<pid_t> pids(workers, 0); int report_seq = 0; std::vector<std::string> report_files;
